@@ -753,3 +753,99 @@ Proof.
   change 0 with ((fun ks => N.of_nat (count_incr ks)) []).
   rewrite map_nth. f_equal. f_equal. erewrite nth_error_nth; eauto.
 Qed.
+
+Section CacheIndependence.
+Variable R : Type.
+
+(* an update is a function of the STORED record: the writer's cached copy does not enter it *)
+Lemma update_uses_stored_record (a : astate R) p f r m :
+  a_file a = FRec r -> nth_error (a_mems a) p = Some m ->
+  a_file (atomic_op a (p, OUpd f)) = FRec (f r) /\
+  nth_error (a_mems (atomic_op a (p, OUpd f))) p = Some (f r).
+Proof.
+  intros Hf Hm. unfold atomic_op; simpl. rewrite Hm, Hf; simpl. split; auto.
+  apply nth_error_upd_eq. eapply nth_error_lt; eauto.
+Qed.
+
+(* two configurations that differ only in the cached records of the processes *)
+Definition same_ctl (x y : proc R) : Prop := p_ops x = p_ops y /\ p_phase x = p_phase y.
+Definition Sim (c1 c2 : conf R) : Prop :=
+  c_lock c1 = c_lock c2 /\ c_order c1 = c_order c2 /\ c_trace c1 = c_trace c2 /\
+  Forall2 same_ctl (c_procs c1) (c_procs c2).
+
+Lemma Forall2_nth {A B} (P : A -> B -> Prop) l1 l2 : Forall2 P l1 l2 ->
+  forall n, match nth_error l1 n, nth_error l2 n with
+            | Some x, Some y => P x y
+            | None, None => True
+            | _, _ => False
+            end.
+Proof.
+  induction 1; intros [|n]; simpl; auto. apply IHForall2.
+Qed.
+
+Lemma Forall2_upd {A B} (P : A -> B -> Prop) l1 l2 : Forall2 P l1 l2 ->
+  forall n x y, P x y -> Forall2 P (upd n x l1) (upd n y l2).
+Proof.
+  induction 1; intros [|n] x' y' Hxy; simpl; constructor; auto.
+Qed.
+
+Lemma sim_step p (c1 c2 : conf R) : Sim c1 c2 -> Sim (step true p c1) (step true p c2).
+Proof.
+  intros (Hl & Ho & Ht & Hp). unfold step.
+  pose proof (Forall2_nth _ _ _ Hp p) as Hn.
+  destruct (nth_error (c_procs c1) p) as [x|], (nth_error (c_procs c2) p) as [y|]; try contradiction;
+    [|unfold Sim; auto].
+  destruct Hn as (Hops & Hph). rewrite <- Hph, <- Hops.
+  destruct (p_phase x); simpl;
+    try (unfold Sim; simpl; rewrite ?Hl, ?Ho, ?Ht; repeat split; auto; apply Forall2_upd; auto; split; auto; fail).
+  - destruct (p_ops x) as [|o rest]; [unfold Sim; auto|].
+    rewrite <- Hl. destruct (is_some (c_lock c1)); simpl; [unfold Sim; auto|].
+    unfold Sim; simpl. rewrite Ho, Ht. repeat split; auto. apply Forall2_upd; auto. split; auto.
+Qed.
+
+Lemma sim_run sched : forall c1 c2 : conf R, Sim c1 c2 -> Sim (run true sched c1) (run true sched c2).
+Proof.
+  unfold run. induction sched as [|p s IH]; intros c1 c2 H; simpl; auto. apply IH. now apply sim_step.
+Qed.
+
+(* the stored record after any schedule does not depend on the records the writers had cached when
+   they started: every update is applied to what is read under the lock *)
+Theorem update_independent_of_cache (r0 : R) (progs1 progs2 : list (list (op R) * R)) sched :
+  map fst progs1 = map fst progs2 ->
+  let c1 := run true sched (init (FRec r0) progs1) in
+  let c2 := run true sched (init (FRec r0) progs2) in
+  c_lock c1 = None -> no_saves (c_order c1) = true ->
+  c_file c1 = c_file c2.
+Proof.
+  intros Hm c1 c2 Hl Hns.
+  assert (HS : Sim c1 c2).
+  { apply sim_run. unfold Sim, init, init_procs; simpl. repeat split; auto.
+    clear - Hm. revert progs2 Hm. induction progs1 as [|a l IH]; intros [|b l2] Hm; simpl in *; try discriminate; constructor.
+    - inversion Hm. split; auto.
+    - apply IH. now inversion Hm. }
+  destruct HS as (HSl & HSo & _).
+  pose proof (updates_linearizable R r0 progs1 sched Hl Hns) as E1. fold c1 in E1.
+  assert (Hl2 : c_lock c2 = None) by congruence.
+  assert (Hns2 : no_saves (c_order c2) = true) by congruence.
+  pose proof (updates_linearizable R r0 progs2 sched Hl2 Hns2) as E2. fold c2 in E2.
+  rewrite E1, E2, HSo. reflexivity.
+Qed.
+
+End CacheIndependence.
+
+(* the cached shortcut (seeded mutation): writer 0 sets the first field to 1, writer 1 sets it to 2,
+   writer 0 sets it to 1 again - its cached record already says 1, the update is skipped and
+   reported done; the stored record keeps 2 *)
+Definition set_fst (n : N) (r : N * N) : N * N := (n, snd r).
+Definition same_nn (a b : N * N) : bool := (fst a =? fst b) && (snd a =? snd b).
+Definition repeat_writers : list (list (op (N * N)) * (N * N)) :=
+  [([OUpd (set_fst 1); OUpd (set_fst 1)], (0, 0)); ([OUpd (set_fst 2)], (0, 0))].
+Definition repeat_sched : list nat :=
+  [0; 0; 0; 0; 0; 0; 0; 1; 1; 1; 1; 1; 1; 1; 0; 0; 0; 0; 0; 0; 0]%nat.
+
+Theorem cached_shortcut_refuted :
+  let c := run_cached same_nn repeat_sched (init (FRec (0, 0)) repeat_writers) in
+  let c' := run true repeat_sched (init (FRec (0, 0)) repeat_writers) in
+  all_done c = true /\ c_file c = FRec (2, 0) /\
+  all_done c' = true /\ c_file c' = FRec (1, 0).
+Proof. vm_compute. auto. Qed.
